@@ -419,6 +419,45 @@ func installStdlib(m *Machine) {
 		}
 		m.Ext["("+kind+").Grow"] = func(m *Machine, pos token.Pos, recv Value, args []Value) (Value, error) { return NilV{}, nil }
 	}
+	// the spelling of a go/token token (keywords, operators)
+	m.Ext["(go/token.Token).String"] = func(m *Machine, pos token.Pos, recv Value, args []Value) (Value, error) {
+		if t, ok := recv.(int64); ok {
+			return Lit(token.Token(t).String()), nil
+		}
+		return unknownCall("token.Token.String", []Value{recv}), nil
+	}
+	m.Ext["(go/token.Token).IsKeyword"] = func(m *Machine, pos token.Pos, recv Value, args []Value) (Value, error) {
+		if t, ok := recv.(int64); ok {
+			return token.Token(t).IsKeyword(), nil
+		}
+		return unknownCall("token.Token.IsKeyword", []Value{recv}), nil
+	}
+	// a buffer made around an empty byte slice (only the capacity is chosen) is an empty buffer
+	m.Ext["bytes.NewBuffer"] = func(m *Machine, pos token.Pos, recv Value, args []Value) (Value, error) {
+		if len(args) == 1 {
+			empty := false
+			switch b := args[0].(type) {
+			case NilV:
+				empty = true
+			case *List:
+				empty = len(b.Elems) == 0
+			}
+			if empty {
+				m.seq++
+				return &Opaque{Kind: "bytes.Buffer", ID: fmt.Sprintf("buffer%d", m.seq), GoType: "*bytes.Buffer", Attrs: map[string]Value{}}, nil
+			}
+		}
+		return nil, undecided(pos, "bytes.NewBuffer around initial content")
+	}
+	m.Ext["bytes.NewBufferString"] = func(m *Machine, pos token.Pos, recv Value, args []Value) (Value, error) {
+		if len(args) == 1 {
+			if s, ok := args[0].(*Sym); ok {
+				m.seq++
+				return &Opaque{Kind: "bytes.Buffer", ID: fmt.Sprintf("buffer%d", m.seq), GoType: "*bytes.Buffer", Attrs: map[string]Value{"buf": s}}, nil
+			}
+		}
+		return nil, undecided(pos, "bytes.NewBufferString of a value that is not a string")
+	}
 	m.Ext["fmt.Fprintf"] = func(m *Machine, pos token.Pos, recv Value, args []Value) (Value, error) {
 		if len(args) >= 2 {
 			if o, ok := args[0].(*Opaque); ok && (o.Kind == "strings.Builder" || o.Kind == "bytes.Buffer") {
